@@ -197,6 +197,14 @@ func libLookup(name string) (libSpec, bool) {
 		return libSpec{"arg0", nil}, true
 	case "(reflect.Value).Index", "(reflect.Value).MapIndex", "(reflect.Value).Interface", "(reflect.Value).MapKeys", "(reflect.Value).MethodByName":
 		return libSpec{"arg0deep", nil}, true
+	case "(reflect.Value).MapRange":
+		// the iterator stands for the map it walks (so that what Key / Value hand out is attributed to the map's contents);
+		// the iterator's own cursor is call-local state and is not modelled
+		return libSpec{"arg0", nil}, true
+	case "(*reflect.MapIter).Key", "(*reflect.MapIter).Value":
+		return libSpec{"arg0deep", nil}, true
+	case "(*reflect.MapIter).Next", "(*reflect.MapIter).Reset":
+		return libSpec{"fresh", nil}, true
 	case "(reflect.Value).Call":
 		return libSpec{"args", nil}, true
 	case "encoding/json.Unmarshal":
